@@ -66,7 +66,7 @@ theorem validateKey_ok_iff (key : Option Bytes) :
 variable {D C : Type} [DecidableEq D]
 
 /-- C04, on the regenerated `delegation.Token.IsValidAt`: valid strictly inside the window, invalid strictly outside -/
-theorem Dlg_IsValidAt_window (undef : D) (g : Gen.DlgTok D) (t : Int) :
+theorem Dlg_IsValidAt_window {S : Type} (undef : D) (g : Gen.DlgTok D S) (t : Int) :
     ((∀ b, g.notBefore = some b → b < t) → (∀ e, g.expiration = some e → t < e) → Gen.Dlg_IsValidAt g t = .ok true) ∧
     (((∃ b, g.notBefore = some b ∧ t < b) ∨ (∃ e, g.expiration = some e ∧ e < t)) → Gen.Dlg_IsValidAt g t = .ok false) := by
   rw [Dlg_IsValidAt_eq undef (fun _ => [])]
@@ -78,32 +78,45 @@ theorem Dlg_IsValidAt_window (undef : D) (g : Gen.DlgTok D) (t : Int) :
 
 /-- C01/C02, on the regenerated `verifyProofs`: it returns nil exactly for the chains that satisfy the principal and
 command clauses of the specification (one delegation loaded per proof CID, defined subject) -/
-theorem verifyProofs_ok_iff_spec {X : Type} (x : X) (args : Node) (undef : D) (pol) (g : Gen.InvTok D C)
-    (ds : List (Gen.DlgTok D)) (hs : g.subject ≠ undef) (hlen : ds.length = g.proof.length) :
+theorem verifyProofs_ok_iff_spec {S X : Type} (x : X) (args : Node) (undef : D) (pol) (g : Gen.InvTok D C)
+    (ds : List (Gen.DlgTok D S)) (hs : g.subject ≠ undef) (hlen : ds.length = g.proof.length) :
     Gen.Inv_verifyProofs g ds = .ok () ↔
       Chain.PrincipalSpec (toInv x args g) (ds.map (toDlg undef pol)) ∧
       Chain.CommandSpec (toInv x args g) (ds.map (toDlg undef pol)) := by
   rw [Inv_verifyProofs_eq x args undef pol g ds hs hlen, ← Chain.verifyProofs_ok_iff]
   cases Chain.verifyProofs (toInv x args g) (ds.map (toDlg undef pol)) <;> simp [Except.mapError]
 
-/-- C01–C05, on the regenerated `executionAllowed` (with the model's `loadProofs` and `verifyArgs` for its two external
-calls): it returns nil EXACTLY when the proofs load and the chain satisfies the principal, command, time and policy
-clauses of the specification — soundness (C01–C04) and completeness (C05) in one statement about the translated code -/
+/-- C03, on the regenerated `verifyArgs` (with the model's statement evaluator for `matchStatement`): it returns nil
+EXACTLY when every statement of the policy of every loaded delegation admits the arguments — no delegation of the chain is
+skipped -/
+theorem verifyArgs_ok_iff_spec {A : Type} (undef : D) (pol : Gen.DlgTok D Policy.Stmt → List Policy.Stmt)
+    (extIPLD : A → GoM Node) (g : Gen.InvTok D C) (ds : List (Gen.DlgTok D Policy.Stmt)) (a : A) (args : Node)
+    (hlen : ds.length = g.proof.length) (hipld : extIPLD a = .ok args)
+    (hpol : ∀ d ∈ ds, d.policy = (pol d).map some) :
+    Gen.Inv_verifyArgs extMatch extIPLD g ds a = .ok () ↔ Chain.PolicySpec (ds.map (toDlg undef pol)) args := by
+  rw [Inv_verifyArgs_eq undef pol extIPLD g ds a args hlen hipld hpol, ← Chain.verifyArgs_ok_iff]
+  cases Chain.verifyArgs (ds.map (toDlg undef pol)) args <;> simp [Except.mapError]
+
+/-- C01–C05, on the regenerated `executionAllowed` (its callees `verifyProofs`, `verifyTimeBound`, `verifyArgs`,
+`Policy.Match` regenerated as well; the model's `loadProofs` and statement evaluator for its external calls): it returns
+nil EXACTLY when the proofs load and the chain satisfies the principal, command, time and policy clauses of the
+specification — soundness (C01–C04) and completeness (C05) in one statement about the translated code -/
 theorem executionAllowed_ok_iff_spec {X L A : Type} (x : X) (args : Node) (undef : D) (pol) (now : Int)
-    (extLoad : Gen.InvTok D C → L → GoM (List (Gen.DlgTok D)))
-    (extArgs : Gen.InvTok D C → List (Gen.DlgTok D) → A → GoM Unit)
-    (ldG : C → Option (Gen.DlgTok D))
+    (extLoad : Gen.InvTok D C → L → GoM (List (Gen.DlgTok D Policy.Stmt)))
+    (extIPLD : A → GoM Node)
+    (ldG : C → Option (Gen.DlgTok D Policy.Stmt))
     (g : Gen.InvTok D C) (loader : L) (a : A) (hs : g.subject ≠ undef)
     (hload : extLoad g loader =
       match g.proof.mapM ldG with
       | some ds => .ok ds
       | none => .error (chainErr .missingDelegation))
-    (hargs : ∀ ds, extArgs g ds a = liftE (Chain.verifyArgs (ds.map (toDlg undef pol)) args)) :
-    Gen.Inv_executionAllowed now extLoad extArgs g loader a = .ok () ↔
+    (hipld : extIPLD a = .ok args)
+    (hpol : ∀ c d, ldG c = some d → d.policy = (pol d).map some) :
+    Gen.Inv_executionAllowed now extLoad extMatch extIPLD g loader a = .ok () ↔
       ∃ ds, Chain.loadProofs (fun c => (ldG c).map (toDlg undef pol)) g.proof = .ok ds ∧
         Chain.PrincipalSpec (toInv x args g) ds ∧ Chain.CommandSpec (toInv x args g) ds ∧
         Chain.TimeSpec now (toInv x args g) ds ∧ Chain.PolicySpec ds args := by
-  rw [Inv_executionAllowed_eq x args undef pol now extLoad extArgs ldG g loader a hs hload hargs]
+  rw [Inv_executionAllowed_eq x args undef pol now extLoad extIPLD ldG g loader a hs hload hipld hpol]
   have := Chain.C05_allowed_iff (fun c => (ldG c).map (toDlg undef pol)) now (toInv x args g) args
   have hprf : (toInv x args g).prf = g.proof := rfl
   rw [hprf] at this
@@ -114,19 +127,20 @@ theorem executionAllowed_ok_iff_spec {X L A : Type} (x : X) (args : Node) (undef
 
 /-! ### the hypotheses can be met, and the regenerated code runs -/
 
-/-- the two parameters of `executionAllowed` exist as required: the model's functions, lifted -/
-example {X : Type} (x : X) (args : Node) (undef : D) (pol : Gen.DlgTok D → List Policy.Stmt) (now : Int)
-    (ldG : C → Option (Gen.DlgTok D)) (g : Gen.InvTok D C) (hs : g.subject ≠ undef) :
-    let extLoad : Gen.InvTok D C → Unit → GoM (List (Gen.DlgTok D)) := fun g _ =>
+/-- the parameters of `executionAllowed` exist as required: a loader over a table of delegations whose policy field holds
+the model policy, and a conversion that yields the arguments -/
+example {X : Type} (x : X) (args : Node) (undef : D) (now : Int)
+    (ldG : C → Option (Gen.DlgTok D Policy.Stmt)) (g : Gen.InvTok D C) (hs : g.subject ≠ undef)
+    (hwf : ∀ c d, ldG c = some d → d.policy = (d.policy.filterMap id).map some) :
+    let pol : Gen.DlgTok D Policy.Stmt → List Policy.Stmt := fun d => d.policy.filterMap id
+    let extLoad : Gen.InvTok D C → Unit → GoM (List (Gen.DlgTok D Policy.Stmt)) := fun g _ =>
       match g.proof.mapM ldG with
       | some ds => .ok ds
       | none => .error (chainErr .missingDelegation)
-    let extArgs : Gen.InvTok D C → List (Gen.DlgTok D) → Unit → GoM Unit := fun _ ds _ =>
-      liftE (Chain.verifyArgs (ds.map (toDlg undef pol)) args)
-    Gen.Inv_executionAllowed now extLoad extArgs g () () =
+    Gen.Inv_executionAllowed now extLoad extMatch (fun (_ : Unit) => .ok args) g () () =
       liftE (Chain.executionAllowed (fun c => (ldG c).map (toDlg undef pol)) now (toInv x args g) args) := by
-  intro extLoad extArgs
-  exact Inv_executionAllowed_eq x args undef pol now extLoad extArgs ldG g () () hs rfl (fun _ => rfl)
+  intro pol extLoad
+  exact Inv_executionAllowed_eq x args undef pol now extLoad _ ldG g () () hs rfl rfl hwf
 
 -- "a*b" matches "axxb"; "\\*" matches "*" and not "a"; `/a` covers `/a/b`, not `/ab`; `[-2:]` of a 5-element list is [3,5)
 example : Gen.glob_Match [97, 42, 98] [97, 120, 120, 98] = .ok true := by
